@@ -495,7 +495,12 @@ class Replay:
             if not getattr(b, "confluence_ok", True):
                 pure = False
             if known is None:
-                want_query = edge["_queried"] if "_queried" in edge else (self.stats["states"] % 2 == 1)
+                if "_queried" in edge:
+                    want_query = edge["_queried"]
+                elif getattr(self, "query_after", None):
+                    want_query = op in self.query_after       # e.g. after training only: what a query remembers must
+                else:                                           # survive whole chains of arm changes
+                    want_query = self.stats["states"] % 2 == 1
                 edge["_queried"] = bool(want_query and edge["t"].get("fitted"))      # kept in replay files
                 if edge["_queried"]:
                     # queries are self-loops of the specification, so an object that has answered queries represents the
